@@ -201,6 +201,20 @@ func NewNNSDriver(mode string) *NNSDriver {
 			nnsOp{kind: "time", step: "exp"},
 		)
 		sets := [][]string{s("U1"), s("U2"), s("D"), s("S"), s("Cm"), s("U2", "D"), s("Al")}
+		// records of sub-names that are not registered themselves: the authority is that of the longest registered
+		// enclosing name, which changes hands with it
+		d.names = append(d.names, "w.x.aa.com", "w.aa.com")
+		for _, sg := range sets {
+			add(nnsOp{kind: "add", name: "w.x.aa.com", typ: rtTXT, data: "t1", signer: sg},
+				nnsOp{kind: "add", name: "w.aa.com", typ: rtTXT, data: "t1", signer: sg},
+				nnsOp{kind: "del", name: "w.x.aa.com", typ: rtTXT, signer: sg})
+		}
+		add(
+			// take-over after expiry by somebody else; a sub-name for U2 with only the parent's owner signing
+			nnsOp{kind: "register", name: "aa.com", who: "U2", signer: s("U2")},
+			nnsOp{kind: "register", name: "x.aa.com", who: "U2", signer: s("U2", "U1")},
+			nnsOp{kind: "register", name: "z.aa.com", who: "U2", signer: s("U1")},
+		)
 		for _, n := range []string{"aa.com", "x.aa.com"} {
 			for _, sg := range sets {
 				add(
